@@ -4,16 +4,16 @@ L=$1; shift
 V=/tmp/vcopy_f$L; W=/tmp/wt_mut_f$L
 rm -rf $V; mkdir -p $V; rsync -a --exclude .git --exclude .work --exclude replays --exclude seeded --exclude harmless /verif/ $V/
 git -C /repo worktree remove --force $W 2>/dev/null; git -C /repo worktree add -q --detach $W HEAD
-mkdir -p /verif/.work/harmfull
-ALL="C01 C02 C03 C04 C05 C06 C07 C08 C09 C10 C11 C12 C13 C14 C15 C16 C17 C18 C19 C20"
+mkdir -p /verif/.work/${OUTDIR:-harmfull}
+ALL="${CHECKS:-C01 C02 C03 C04 C05 C06 C07 C08 C09 C10 C11 C12 C13 C14 C15 C16 C17 C18 C19 C20}"
 for d in "$@"; do
   tag=$(basename $d)
-  git -C $W apply $d/patch.diff || { echo "APPLY-FAILED" > /verif/.work/harmfull/$tag.txt; continue; }
-  : > /verif/.work/harmfull/$tag.txt
+  git -C $W apply $d/patch.diff || { echo "APPLY-FAILED" > /verif/.work/${OUTDIR:-harmfull}/$tag.txt; continue; }
+  : > /verif/.work/${OUTDIR:-harmfull}/$tag.txt
   for id in $ALL; do
     out=$(cd $V && HMF_REPO=$W timeout 1500 ./check $id --tier quick 2>&1 | grep -E "^VIOLATION|^C[0-9]+:|INFRA" | cut -c1-160 | tr '\n' ' ')
-    echo "[$id] $out" >> /verif/.work/harmfull/$tag.txt
-    if echo "$out" | grep -q VIOLATION; then mkdir -p /verif/.work/harmfull/replays_$tag; cp $V/replays/$id/*.json /verif/.work/harmfull/replays_$tag/ 2>/dev/null; fi
+    echo "[$id] $out" >> /verif/.work/${OUTDIR:-harmfull}/$tag.txt
+    if echo "$out" | grep -q VIOLATION; then mkdir -p /verif/.work/${OUTDIR:-harmfull}/replays_$tag; cp $V/replays/$id/*.json /verif/.work/${OUTDIR:-harmfull}/replays_$tag/ 2>/dev/null; fi
     rm -rf $V/replays
   done
   git -C $W checkout -- .
